@@ -9,6 +9,7 @@ DEFAULT_REWARDS = (1.0, 0.0, 0.0)  # documented defaults: safe square, mine, inv
 class Adapter(EnvAdapter):
     name = "Minesweeper"
     props = ("C01", "C03", "C04", "C05", "C07", "C08", "C09", "C10", "C11", "C12")
+    gen_heavy = {'r2c2m1': (60, 400), 'r3c3m8': (60, 400), 'r4c6m4': (40, 300)}
     probe_cap = 64  # every (row, col) is probed on boards up to 8x8; larger boards are sampled (probe_sample)
 
     def configs(self, tier):
